@@ -18,7 +18,7 @@ PROPERTY = "C10"
 LEVEL = "fault_enumeration"
 EVALS_FROM_COUNTER = True
 RULE = ("one evaluation = one execution of a CLI task with one fault plan (fault kind - I/O error before/after the call, process "
-        "kill before/after it, KeyboardInterrupt instead of it, I/O error at it and at every later point (full disk) or at the next 2..5 points (burst) - at fault point k; "
+        "kill before/after it, KeyboardInterrupt instead of it, I/O error at it and at every later point (full disk) or at the next 2..5 points (burst), torn close of a temporary file (half flushed, ENOSPC) - at fault point k; "
         "fault points = every outermost h5py Dataset/Group/Attribute/File mutating call, h5o.copy, file open/close, "
         "pathlib/os rename/unlink/mkdir of the task, numbered in execution order); thorough also crash->restart->crash "
         "sequences.  distinct_nontrivial = distinct (task, fault kind, fault-point label class) triples whose fault "
@@ -28,7 +28,8 @@ STATE_MEASURE = "distinct (task, prestate, fault kind, label class, outcome clas
 PROBES = ["kill_between_last_write_and_rename", "kill_after_rename", "stale_output_survived_crash",
           "stale_temp_present_at_start", "task_raised_on_injected_error", "restart_after_crash_succeeded",
           "restart_after_crash_failed", "multi_output_partial_rename", "crash_restart_sequence", "task_refuses_prestate", "restart_judged",
-          "partial_leftover_at_output_path", "partial_leftover_untouched_before_start"]
+          "partial_leftover_at_output_path", "partial_leftover_untouched_before_start",
+          "output_path_is_symlink_to_input"]
 COMPONENTS = {
     "real": ["dclab.cli.* tasks", "dclab.rtdc_dataset.* (writer, export, copier, fmt_hdf5, fmt_tdms)",
              "h5py/HDF5 + hdf5plugin writing real files on tmpfs", "process death (os._exit in a forked grandchild)",
@@ -65,7 +66,7 @@ def make_trace(seed, tier, idx=None):
     t = {
         "task": task,
         "n": r.choice([5, 9, 17, 33, 60]) if tier == "thorough" else r.choice([5, 9, 17]),
-        "prestate": r.choice(["clean", "clean", "stale_out", "stale_temp", "both"] + (["partial_out"] if task != "split" else [])),
+        "prestate": r.choice(["clean", "clean", "stale_out", "stale_temp", "both"] + (["partial_out", "symlink_out"] if task not in ("split", "tdms2rtdc") else [])),
         "chunk_bytes": r.choice([1024 ** 2, 1024 ** 2, 640, 960, 4000]),
         "contour": r.random() < 0.3,
         "trace": r.random() < 0.4,
@@ -202,6 +203,16 @@ class Workload:
                 dst = self.work / rel
                 dst.parent.mkdir(parents=True, exist_ok=True)
                 shutil.copyfile(src, dst)
+        if ps == "symlink_out":
+            # the requested output path is a symbolic link to the input (a directory of links to raw data that are to be
+            # replaced by processed copies)
+            for rel in self.outputs:
+                dst = self.work / rel
+                dst.parent.mkdir(parents=True, exist_ok=True)
+                if dst.exists() or dst.is_symlink():
+                    dst.unlink()
+                dst.symlink_to(self.work / self.main_input)
+            self.ctx.probe("output_path_is_symlink_to_input")
         if ps == "partial_out":
             # something unloadable already sits at the output path (the remains of another program's aborted attempt)
             for rel in self.outputs:
@@ -313,6 +324,9 @@ def select_plans(labels, tier, r, task=None):
             plans.append([{"at": k, "kind": "err_persist"}])
             plans.append([{"at": k, "kind": "err_persist_w"}])
             plans.append([{"at": k, "kind": r.choice(["err_burst2", "err_burst3", "err_burst5"])}])
+        for k, lab in enumerate(labels):
+            if lab.startswith("file.close") and lab.endswith("~"):
+                plans.append([{"at": k, "kind": "torn_close"}])
         for k in ks[::max(1, len(ks) // 80)]:
             plans.append([{"at": k, "kind": "intr_before"}])
             plans.append([{"at": k, "kind": "intr_before"}, {"at": -1, "kind": "none"}])
@@ -348,6 +362,12 @@ def select_plans(labels, tier, r, task=None):
         plans.append([{"at": k, "kind": "err_before"}])
     for k in r.sample(range(n), min(max(2, cap // 10), n)):
         plans.append([{"at": k, "kind": "err_after"}])
+    for k, lab in enumerate(labels):
+        # closing (flushing) a temporary file is where a full disk shows: an error there, before and after the call
+        if lab.startswith("file.close") and lab.endswith("~"):
+            plans.append([{"at": k, "kind": "err_before"}])
+            plans.append([{"at": k, "kind": "err_after"}])
+            plans.append([{"at": k, "kind": "torn_close"}])
     for k in r.sample(range(n), min(max(2, cap // 12), n)):
         # the user interrupts the task (KeyboardInterrupt is not an Exception: clean-up code written with
         # `except Exception` does not run)
@@ -507,6 +527,10 @@ def run(trace, ctx):
                         why = "differs from the complete result: " + "; ".join(h5digest.h5_diff(p, wl.root / "ref" / rel)[:4])
                 except Exception as e:  # not even an HDF5 file
                     why = f"cannot be opened: {type(e).__name__}: {e}"
+                if not ok and t["prestate"] == "symlink_out" and kind != "none" and p.is_symlink() and k <= first_temp_open:
+                    # the run ended before it began to write: the link it found is still there
+                    ctx.probe("partial_leftover_untouched_before_start")
+                    ok = True
                 if (not ok and t["prestate"] == "partial_out" and kind != "none" and p.read_bytes() == PARTIAL_LEFTOVER
                         and k <= first_temp_open):
                     # the run ended before it began to write: the leftover it found is still what it was
@@ -528,7 +552,7 @@ def run(trace, ctx):
                               f"{task}: unexpected file '{name}' after {kind} at point {k} ({lab})",
                               sig=sig, trace=vtrace)
             # (4) a swallowed error must not change the result
-            if outcome == "completed" and kind.startswith(("err", "intr")) and fired:
+            if outcome == "completed" and kind.startswith(("err", "intr", "torn")) and fired:
                 if kind.startswith("err_persist"):
                     ctx.probe("persistent_error_swallowed")
                 for rel in outputs:
